@@ -1001,7 +1001,19 @@ fn check_case(case: &Case) -> Result<(Stats, Option<Found>), String> {
     st.noncapture_scope_defs = exp.noncapture_scope_defs;
     st.null_defs = exp.null_defs;
     st.copy_defs = exp.copy_defs;
-    let file = simrun::load(&case.text).map_err(|e| format!("schema program rejected: {}\n{}", e, case.text))?;
+    let file = match simrun::load(&case.text) {
+        Ok(f) => f,
+        Err(e) => {
+            // Every schema program is accepted by the unchanged loader.  A loader that refuses
+            // one in which every read resolves makes a scoped variable invisible from some
+            // expression that evaluates to its node.
+            st.outcome = "rejected";
+            if exp.fails {
+                return Ok((st, None));
+            }
+            return Ok((st, Some(Found { class: "program-rejected", detail: format!("every read of this program resolves and nothing is defined twice, but the loader rejects it: {}", e) })));
+        }
+    };
     let fns = simrun::functions();
     let vars = simrun::make_variables(&Vec::new(), &[]);
     let out = simrun::execute(
@@ -1108,7 +1120,7 @@ pub fn make_case(ctx: &ShardCtx, i: u64) -> Case {
     let seed = ctx.run_seed(i);
     let mut r = Rng::sub(seed, "plan");
     let lazy = r.chance(1, 2);
-    let policy = Policy::ALL[r.weighted(&[2, 2, 2, 4, 2])];
+    let policy = Policy::ALL[r.weighted(&[2, 2, 2, 4, 2, 1])];
     let schema = gen_schema(&mut Rng::sub(seed, "schema"), lazy);
     let mut order: Vec<usize> = (0..schema.stanzas.len()).collect();
     let interleave = r.chance(1, 2);
